@@ -419,6 +419,183 @@ func selfClash(t octosql.Type) bool {
 	return false
 }
 
+// ---- the finding's class, mirrored from coq/Model/TypesClash.v (compared with the model on every case) ----
+
+const is = octosql.TypeRelationIs
+
+// shapesOK: same field-name list, strictly ascending (struct_shapes_ok).
+func shapesOK(f1, f2 []octosql.StructField) bool {
+	if len(f1) != len(f2) {
+		return false
+	}
+	for i := range f1 {
+		if f1[i].Name != f2[i].Name {
+			return false
+		}
+	}
+	return strictlyAscending(f1)
+}
+
+// clashFlat mirrors clash_flat: the struct / list / tuple merges of TypeSum on two operands that are not unions.
+func clashFlat(a, b octosql.Type) bool {
+	if a.Is(b) == is || b.Is(a) == is {
+		return false
+	}
+	switch {
+	case a.TypeID == octosql.TypeIDStruct && b.TypeID == octosql.TypeIDStruct:
+		f1, f2 := a.Struct.Fields, b.Struct.Fields
+		if !shapesOK(f1, f2) {
+			return true
+		}
+		for i := range f1 {
+			if sumClash(f1[i].Type, f2[i].Type) {
+				return true
+			}
+		}
+	case a.TypeID == octosql.TypeIDList && b.TypeID == octosql.TypeIDList:
+		if a.List.Element != nil && b.List.Element != nil {
+			return sumClash(*a.List.Element, *b.List.Element)
+		}
+	case a.TypeID == octosql.TypeIDTuple && b.TypeID == octosql.TypeIDTuple:
+		l1, l2 := a.Tuple.Elements, b.Tuple.Elements
+		if len(l1) != len(l2) {
+			return true
+		}
+		for i := range l1 {
+			if sumClash(l2[i], l1[i]) { // equal arity: TypeSum takes t2 as "longer"
+				return true
+			}
+		}
+	}
+	return false
+}
+
+func clashFirst(alts []octosql.Type, b octosql.Type) bool {
+	for _, a := range alts {
+		if a.TypeID == b.TypeID {
+			return clashFlat(a, b)
+		}
+	}
+	return false
+}
+
+// sumClash mirrors sum_clash: does the computation of TypeSum(a, b) meet a struct merge with different or unsorted
+// field-name lists or a tuple merge of different arities?  The accumulator of the union/union fold is obtained
+// from the implementation's TypeSum; the verdict never looks at whether a sum is an upper bound.
+func sumClash(a, b octosql.Type) bool {
+	if a.Is(b) == is || b.Is(a) == is {
+		return false
+	}
+	au, bu := a.TypeID == octosql.TypeIDUnion, b.TypeID == octosql.TypeIDUnion
+	switch {
+	case au && bu:
+		out := a
+		for _, bk := range b.Union.Alternatives {
+			if sumClash(out, bk) {
+				return true
+			}
+			out = octosql.TypeSum(out, bk)
+		}
+		return false
+	case bu:
+		return clashFirst(b.Union.Alternatives, a)
+	case au:
+		return clashFirst(a.Union.Alternatives, b)
+	}
+	return clashFlat(a, b)
+}
+
+// interClash mirrors inter_clash: the accumulating sums of TypeIntersection.
+func interClash(a, b octosql.Type) bool {
+	var out *octosql.Type
+	flag := false
+	loop := func(ps []octosql.Type, other octosql.Type) {
+		for _, t := range ps {
+			t := t
+			if t.Is(other) != is {
+				continue
+			}
+			if out == nil {
+				out = &t
+			} else {
+				flag = flag || sumClash(*out, t)
+				s := octosql.TypeSum(*out, t)
+				out = &s
+			}
+		}
+	}
+	loop(flatten(a), b)
+	loop(flatten(b), a)
+	return flag
+}
+
+// valueClashModel mirrors value_clash: the sums Value.Type makes for the lists inside v.
+func valueClashModel(v octosql.Value) bool {
+	any := func(vs []octosql.Value) bool {
+		for _, x := range vs {
+			if valueClashModel(x) {
+				return true
+			}
+		}
+		return false
+	}
+	switch v.TypeID {
+	case octosql.TypeIDList:
+		if any(v.List) {
+			return true
+		}
+		var e *octosql.Type
+		flag := false
+		for _, x := range v.List {
+			t := x.Type()
+			if e == nil {
+				e = &t
+			} else {
+				flag = flag || sumClash(*e, t)
+				s := octosql.TypeSum(*e, t)
+				e = &s
+			}
+		}
+		return flag
+	case octosql.TypeIDStruct:
+		return any(v.Struct)
+	case octosql.TypeIDTuple:
+		return any(v.Tuple)
+	}
+	return false
+}
+
+// wfType mirrors wf_ty (the normal form TypeSum keeps).
+func wfType(t octosql.Type) bool {
+	switch t.TypeID {
+	case octosql.TypeIDList:
+		return t.List.Element == nil || wfType(*t.List.Element)
+	case octosql.TypeIDStruct:
+		for _, f := range t.Struct.Fields {
+			if !wfType(f.Type) {
+				return false
+			}
+		}
+	case octosql.TypeIDTuple:
+		for _, e := range t.Tuple.Elements {
+			if !wfType(e) {
+				return false
+			}
+		}
+	case octosql.TypeIDUnion:
+		as := t.Union.Alternatives
+		if len(as) < 2 {
+			return false
+		}
+		for i, a := range as {
+			if !wfType(a) || a.TypeID == octosql.TypeIDUnion || a.TypeID == octosql.TypeIDAny || (i > 0 && as[i-1].TypeID >= a.TypeID) {
+				return false
+			}
+		}
+	}
+	return true
+}
+
 const classStructMerge = "sum-of-different-shapes"
 
 // ---- cases -------------------------------------------------------------------------------------
@@ -430,7 +607,7 @@ type engine struct {
 func (e *engine) guarded(idx *int, what string, f func()) {
 	defer func() {
 		if p := recover(); p != nil {
-			i := e.cf.Add("CValue VNull TNull", map[string]interface{}{"kind": "panic", "what": what, "panic": fmt.Sprint(p)}, false)
+			i := e.cf.Add("CValue VNull TNull false", map[string]interface{}{"kind": "panic", "what": what, "panic": fmt.Sprint(p)}, false)
 			e.cf.Violation(i, fmt.Sprintf("%s panicked: %v", what, p), "")
 		}
 	}()
@@ -452,13 +629,19 @@ func (e *engine) addPair(r *lib.Rng, a, b octosql.Type, kind string) {
 		js := map[string]interface{}{"kind": kind, "a": show(a), "b": show(b), "a_is_b": coqRel(ab), "b_is_a": coqRel(ba), "equals": eq,
 			"sum_ab": show(sab), "sum_ba": show(sba), "sums_equal": comm, "intersection": interJS, "probe_values": lib.ValuesJSON(vals)}
 		related := ab != octosql.TypeRelationIsnt || ba != octosql.TypeRelationIsnt
-		cf.Add(fmt.Sprintf("CPair %s %s %s %s %s %s %s %s %s %s", coqType(a), coqType(b), lib.CoqValues(vals), coqRel(ab), coqRel(ba), lib.CoqBool(eq),
-			coqType(sab), coqType(sba), lib.CoqBool(comm), interCoq), js, related || (a.TypeID == b.TypeID && a.TypeID >= octosql.TypeIDList))
+		clAB, clBA, clInter := sumClash(a, b), sumClash(b, a), interClash(a, b)
+		js["class_sum_ab"], js["class_sum_ba"], js["class_intersection"] = clAB, clBA, clInter
+		cf.Add(fmt.Sprintf("CPair %s %s %s %s %s %s %s %s %s %s %s %s %s", coqType(a), coqType(b), lib.CoqValues(vals), coqRel(ab), coqRel(ba), lib.CoqBool(eq),
+			coqType(sab), coqType(sba), lib.CoqBool(comm), interCoq, lib.CoqBool(clAB), lib.CoqBool(clBA), lib.CoqBool(clInter)),
+			js, related || (a.TypeID == b.TypeID && a.TypeID >= octosql.TypeIDList))
+		if !clAB && a.TypeID == b.TypeID && (a.TypeID == octosql.TypeIDStruct || a.TypeID == octosql.TypeIDTuple) && !related {
+			cf.Count("same_shape_struct_or_tuple_merge_outside_class")
+		}
 		cf.Count(kind + "_pair")
 		cf.Count("a_is_b_" + coqRel(ab))
 
 		as, bs := a.Is(sab), b.Is(sab)
-		clash := shapeClash(a, b)
+		clash := clAB // exactly the model's class: C10_sum_upper covers every pair outside it
 		idx := cf.Add(fmt.Sprintf("CUpper %s %s %s %s %s", coqType(a), coqType(b), coqType(sab), coqRel(as), coqRel(bs)),
 			map[string]interface{}{"kind": "sum_upper_bound", "a": show(a), "b": show(b), "sum": show(sab), "a_is_sum": coqRel(as), "b_is_sum": coqRel(bs), "shape_clash": clash},
 			ab != octosql.TypeRelationIs && ba != octosql.TypeRelationIs)
@@ -471,7 +654,9 @@ func (e *engine) addPair(r *lib.Rng, a, b octosql.Type, kind string) {
 			idx := cf.Add(fmt.Sprintf("CInter %s %s %s %s %s", coqType(a), coqType(b), coqType(*inter), coqRel(ia), coqRel(ib)),
 				map[string]interface{}{"kind": "intersection_lower_bound", "a": show(a), "b": show(b), "intersection": show(*inter), "i_is_a": coqRel(ia), "i_is_b": coqRel(ib)},
 				!eq)
-			if selfClash(a) || selfClash(b) || shapeClash(a, b) {
+			// C10_inter_lower covers normal-form operands outside interClash; for operands that are not normal forms
+			// the coarser structural predicates are kept as well
+			if clInter || (!(wfType(a) && wfType(b)) && (selfClash(a) || selfClash(b) || shapeClash(a, b))) {
 				cf.SetClass(idx, classStructMerge)
 				cf.Count("inter_in_known_class")
 			}
@@ -557,8 +742,12 @@ func (e *engine) addValue(v octosql.Value) {
 	e.guarded(nil, "Value.Type of "+v.String(), func() {
 		t := v.Type()
 		js := map[string]interface{}{"kind": "value", "value": lib.ValueJSON(v), "type": show(t)}
-		e.cf.Add(fmt.Sprintf("CValue %s %s", lib.CoqValue(v), coqType(t)), js, v.TypeID >= octosql.TypeIDList)
-		clash := valueClash(v)
+		clash := valueClashModel(v) // exactly the model's class: C10_value_type covers every value outside it
+		js["class_value"] = clash
+		e.cf.Add(fmt.Sprintf("CValue %s %s %s", lib.CoqValue(v), coqType(t), lib.CoqBool(clash)), js, v.TypeID >= octosql.TypeIDList)
+		if !clash && valueClash(v) {
+			e.cf.Count("value_lists_of_structs_or_tuples_outside_class")
+		}
 		idx := e.cf.Add(fmt.Sprintf("CValueType %s %s", lib.CoqValue(v), coqType(t)),
 			map[string]interface{}{"kind": "value_inhabits_its_type", "value": lib.ValueJSON(v), "type": show(t), "shape_clash": clash}, v.TypeID >= octosql.TypeIDList)
 		if clash {
